@@ -13,48 +13,58 @@ vars == <<S, ok, hist>>
 Op(o, h, name, names, path, pid, kind, val) ==
   [op |-> o, h |-> h, name |-> name, names |-> names, path |-> path, pid |-> pid, kind |-> kind, val |-> val]
 
-S0(cs) == [ctls |-> cs, dirs |-> [c \in cs |-> {}], mem |-> [c \in cs |-> [k \in PidSet |-> Outside]], hs |-> <<>>]
-\* the first call of every history creates the base group (v1 with a set of controllers, or cgroup2: {"u"})
-Init == \E cs \in CtlSets :
-        LET r == ImplNewAt(S0(cs), <<>>) IN
-        /\ S = r.S /\ ok = (r = SpecNewAt(S0(cs), <<>>))
-        /\ hist = <<Op("top", 0, "", SetToSeq(cs), <<>>, "", "", 0)>>
+S0(cs, pre) == [ctls |-> cs, dirs |-> [c \in cs |-> IF c \in pre THEN {<<>>} ELSE {}],
+                mem |-> [c \in cs |-> [k \in PidSet |-> Outside]], hs |-> <<>>]
+\* the first call of every history creates the base group (v1 with a set of controllers, or cgroup2:
+\* {"u"}); before it an administrator may have made the base directory in some of the hierarchies
+Init == \E cs \in CtlSets : \E pre \in (SUBSET cs) \ {cs} :
+        LET r == ImplNewAt(S0(cs, pre), <<>>) IN
+        /\ S = r.S /\ ok = AdmNewAt(S0(cs, pre), <<>>, r)
+        /\ hist = (IF pre = {} THEN <<>> ELSE <<Op("mk", 0, "", SetToSeq(pre), <<>>, "", "", 0)>>)
+                  \o <<Op("top", 0, "", SetToSeq(cs), <<>>, "", "", 0)>>
 
 KindOK(k) == (k = "mem" /\ "memory" \in S.ctls) \/ (k \in {"cpu", "pids"} /\ k \in S.ctls)
 Usable(h) == S.hs[h].live /\ Exists(S, S.hs[h].path)
 Room == Len(S.hs) < MaxHandles
-Step(impl, spec, o) ==
+\* adm: the implementation's result is admissible at the property layer
+Step(impl, adm, o) ==
   /\ S' = impl.S
-  /\ ok' = (ok /\ impl = spec)
+  /\ ok' = (ok /\ adm)
   /\ hist' = Append(hist, o)
 
 Next ==
   /\ Len(hist) < MaxOps
   /\ \/ \E h \in DOMAIN S.hs, n \in Names :
           /\ Usable(h) /\ Room /\ Len(S.hs[h].path) < MaxDepth
-          /\ \/ Step(ImplNew(S, h, n), SpecNew(S, h, n), Op("new", h, n, <<>>, <<>>, "", "", 0))
-             \/ Step(ImplNest(S, h, n), SpecNest(S, h, n), Op("nest", h, n, <<>>, <<>>, "", "", 0))
+          /\ \/ Step(ImplNew(S, h, n), AdmNewAt(S, Child(S.hs[h].path, n), ImplNew(S, h, n)), Op("new", h, n, <<>>, <<>>, "", "", 0))
+             \/ Step(ImplNest(S, h, n), AdmNest(S, h, n, ImplNest(S, h, n)), Op("nest", h, n, <<>>, <<>>, "", "", 0))
+     \* an administrator's mkdir of a child in some (not all) hierarchies
+     \/ \E h \in DOMAIN S.hs, n \in Names, cs \in (SUBSET S.ctls) \ {{}, S.ctls} :
+          /\ Usable(h) /\ Len(S.hs[h].path) < MaxDepth
+          /\ Fresh(S, Child(S.hs[h].path, n))
+          /\ LET r == SpecMk(S, Child(S.hs[h].path, n), cs) IN
+             Step(r, TRUE, Op("mk", 0, "", SetToSeq(cs), Child(S.hs[h].path, n), "", "", 0))
      \/ \E h \in DOMAIN S.hs, n \in Names, r \in RNames :
           /\ Usable(h) /\ Room /\ Len(S.hs[h].path) < MaxDepth
-          /\ Fresh(S, Child(S.hs[h].path, r))
-          /\ Step(ImplRandom(S, h, <<n, r>>), SpecRandom(S, h, <<n, r>>), Op("random", h, "", <<n, r>>, <<>>, "", "", 0))
+          /\ Fresh(S, Child(S.hs[h].path, r)) /\ Uniform(S, Child(S.hs[h].path, n))
+          /\ Step(ImplRandom(S, h, <<n, r>>), ImplRandom(S, h, <<n, r>>) = SpecRandom(S, h, <<n, r>>), Op("random", h, "", <<n, r>>, <<>>, "", "", 0))
      \/ \E h \in DOMAIN S.hs, n \in Names :
           /\ Usable(h) /\ Room /\ Len(S.hs[h].path) < MaxDepth
           /\ LET p == Child(S.hs[h].path, n) IN
-             Step(ImplOpen(S, p), SpecOpen(S, p), Op("open", 0, "", <<>>, p, "", "", 0))
+             Step(ImplOpen(S, p), ImplOpen(S, p) = SpecOpen(S, p), Op("open", 0, "", <<>>, p, "", "", 0))
      \/ \E h \in DOMAIN S.hs, k \in PidSet :
           /\ Usable(h)
-          /\ Step(ImplAdd(S, h, k), SpecAdd(S, h, k), Op("add", h, "", <<>>, <<>>, k, "", 0))
+          /\ Step(ImplAdd(S, h, k), ImplAdd(S, h, k) = SpecAdd(S, h, k), Op("add", h, "", <<>>, <<>>, k, "", 0))
      \/ \E h \in DOMAIN S.hs :
           /\ S.hs[h].live
-          /\ Step(ImplDestroy(S, h), SpecDestroy(S, h), Op("destroy", h, "", <<>>, <<>>, "", "", 0))
+          /\ Step(ImplDestroy(S, h), AdmDestroy(S, h, ImplDestroy(S, h)), Op("destroy", h, "", <<>>, <<>>, "", "", 0))
      \/ /\ WithSet
         /\ \E h \in DOMAIN S.hs, kv \in {<<"mem", 67108864>>, <<"mem", 8388608>>, <<"cpu", 50000>>, <<"cpu", 100000>>, <<"pids", 7>>} :
              /\ Usable(h) /\ KindOK(kv[1])
              /\ UNCHANGED <<S, ok>>
              /\ hist' = Append(hist, Op("set", h, "", <<>>, <<>>, "", kv[1], kv[2]))
 \* generator: a history of full length is printed once
-Done == /\ Emit /\ Len(hist) = MaxOps
+Done == /\ Emit /\ Len(hist) >= MaxOps
         /\ PrintT(<<"HIST", ToJson(hist)>>)
         /\ UNCHANGED vars
 Spec == Init /\ [][Next \/ Done]_vars
@@ -65,6 +75,6 @@ Housed == MembersHoused(S)
 \* a directory is only ever removed by Destroy through a handle that created it (checked on every step)
 OnlyOwnersRemove ==
   [][\A c \in S.ctls : \A p \in S.dirs[c] \ S'.dirs[c] :
-        \E h \in DOMAIN S.hs : S.hs[h].path = p /\ c \in S.hs[h].own /\ S.hs[h].live /\ ~S'.hs[h].live]_vars
+        \E h \in DOMAIN S.hs : S.hs[h].path = p /\ c \in S.hs[h].own /\ S.hs[h].live]_vars
 View == <<S, ok, Len(hist)>>
 =============================================================================
